@@ -131,13 +131,14 @@ def as_symseq(it, sorted_=False):
 
 class LoopSpec:
     def __init__(self, invariant=None, locals=None, facts=None, modifies=None, decreases=None,
-                 keep=(), exit_facts=None):
+                 keep=(), exit_facts=None, havoc=()):
         self.invariant = invariant
         self.locals = locals or {}
         self.facts = facts
         self.modifies = modifies or {}
         self.decreases = decreases
         self.keep = tuple(keep)
+        self.havoc = tuple(havoc)  # extra local names whose objects the body mutates through calls
 
 
 class _LoopBase:
@@ -187,6 +188,10 @@ class _LoopBase:
         if isinstance(value, (SymMap, SymSet)) and sp is None:
             havoc_container(value, f"L{self.k}.{name}")
             return value
+        if hasattr(value, "__havoc__") and sp is None:
+            value.__havoc__(f"L{self.k}.{name}")
+            c.data.setdefault("havocked", set()).add(id(value))
+            return value
         if sp is None:
             sp = ty.spec_of_value(value)
         if sp is None:
@@ -226,6 +231,7 @@ def havoc_obj(o: SymObj, fields, prefix):
             havoc_container(v, f"{prefix}.{f}")
         elif hasattr(v, "__havoc__"):
             v.__havoc__(f"{prefix}.{f}")
+            c.data["havocked"].add(id(v))
         else:
             sp = ty.spec_of_value(v)
             if sp is None:
